@@ -39,6 +39,19 @@ CLAIMS = {
         note=TRUST + "Contracts table; does not decide the acceptance grammar of number/hex sub-scanners.",
         technique="static analysis: CFG must-analysis + partitioned zone facts (typestate x difference bounds)",
         ref="DESIGN.md section 4 C07"),
+    "C20": dict(
+        text="Static analysis, partial but exhaustive over code points: every CFG path of the three "
+             "UnicodeToUTF::ToUTF specialisations is summarised in a bit-level abstract domain (interval of the code "
+             "point, emitted units as vectors of symbolic input bits) and proven equal to the Unicode encoding-form "
+             "reference on each region, which covers all 1,112,064 scalars without enumerating them; the value-set of "
+             "the high-surrogate predicate is computed exactly ([D800,DBFF]); the surrogate recombination is proven "
+             "equal to ((hi&0x3FF)<<10 | lo&0x3FF)+0x10000 in the same domain; hex digit ranges/offsets; the \\u arm "
+             "writes only through ToUTF and converts exactly four digits per escape.",
+        note=TRUST + "Reference forms in rules/C20.py (Unicode ch.3 encoding forms). Shapes outside the bit-vector "
+             "algebra are reported as ANALYSIS-BROKEN, never as a verdict. Cursor arithmetic selecting the digits is "
+             "C05's bounds analysis, not value-checked.",
+        technique="static analysis: path summaries in a bit-vector abstract domain + exact predicate value-sets",
+        ref="DESIGN.md section 4 C20"),
 }
 
 NA = {
